@@ -26,7 +26,6 @@ ALLOWED_AXIOMS = []
 SOCKET_PY = "src/easynetwork/lowlevel/api_async/backend/_asyncio/stream/socket.py"
 BLOCKING_PY = "src/easynetwork/lowlevel/api_sync/endpoints/stream.py"
 ANCHORS = [
-    (SOCKET_PY, "StreamReaderBufferedProtocol"),      # whole class: _wait_for_data has @overload stubs of the same name
     (SOCKET_PY, "StreamReaderBufferedProtocol.get_buffer"),
     (SOCKET_PY, "StreamReaderBufferedProtocol.buffer_updated"),
     (SOCKET_PY, "StreamReaderBufferedProtocol.eof_received"),
@@ -34,6 +33,7 @@ ANCHORS = [
     (SOCKET_PY, "StreamReaderBufferedProtocol.receive_data"),
     (SOCKET_PY, "StreamReaderBufferedProtocol.receive_data_into"),
     (SOCKET_PY, "StreamReaderBufferedProtocol._wait_for_data"),
+    (SOCKET_PY, "StreamReaderBufferedProtocol.__keep_data_of_cancelled_reader"),
     (SOCKET_PY, "StreamReaderBufferedProtocol._read_waiter_fut"),
     (SOCKET_PY, "StreamReaderBufferedProtocol._wakeup_read_waiter"),
     (SOCKET_PY, "StreamReaderBufferedProtocol._check_for_connection_lost"),
